@@ -646,7 +646,13 @@ impl InnerInMemory {
                     }
                     Some((name, set)) => {
                         // names aren't equal, create the NSEC record
-                        records.push(finish_nsec_record(name, &key.name, set, ttl));
+                        records.push(finish_nsec_record(
+                            name,
+                            &key.name,
+                            set,
+                            &delegation_points,
+                            ttl,
+                        ));
 
                         // new record...
                         nsec_info = Some((&key.name, BTreeSet::from([key.record_type])))
@@ -656,7 +662,13 @@ impl InnerInMemory {
 
             // the last record
             if let Some((name, set)) = &mut nsec_info {
-                records.push(finish_nsec_record(name, origin, set, ttl));
+                records.push(finish_nsec_record(
+                    name,
+                    origin,
+                    set,
+                    &delegation_points,
+                    ttl,
+                ));
             }
         }
 
@@ -962,8 +974,15 @@ fn finish_nsec_record(
     name: &Name,
     next_name: &Name,
     record_type_set: &mut BTreeSet<RecordType>,
+    delegation_points: &HashSet<LowerName>,
     ttl: u32,
 ) -> Record {
+    // At a delegation point the zone is only authoritative for the NS and DS RRsets, the bits of
+    // all the other types (e.g. glue records) must be clear. (RFC 4035 2.3)
+    if delegation_points.contains(&LowerName::new(name)) {
+        record_type_set.retain(|rtype| matches!(rtype, RecordType::NS | RecordType::DS));
+    }
+
     let rdata = NSEC::new_cover_self(next_name.clone(), mem::take(record_type_set));
     Record::from_rdata(name.clone(), ttl, RData::DNSSEC(DNSSECRData::NSEC(rdata)))
 }
@@ -1030,5 +1049,62 @@ mod tests {
         let rrset = result.unwrap();
         assert_eq!(rrset.record_type(), RecordType::NS);
         assert_eq!(rrset.name(), &sub);
+    }
+
+    #[cfg(feature = "__dnssec")]
+    #[test]
+    fn test_nsec_zone_delegation_with_glue() {
+        use core::time::Duration;
+
+        use crate::proto::{
+            dnssec::{SigningKey, crypto::Ed25519SigningKey, rdata::DNSKEY},
+            rr::rdata::A,
+        };
+
+        let origin = Name::from_str("example.com.").unwrap();
+        let sub = Name::from_str("sub.example.com.").unwrap();
+        let mut inner = InnerInMemory::default();
+
+        let soa = Record::from_rdata(
+            origin.clone(),
+            3600,
+            RData::SOA(SOA::new(
+                Name::from_str("ns.example.com.").unwrap(),
+                Name::from_str("hostmaster.example.com.").unwrap(),
+                1,
+                3600,
+                3600,
+                3600,
+                3600,
+            )),
+        );
+        inner.upsert(soa, 1, DNSClass::IN);
+
+        // The name server of sub.example.com is the delegation point itself, its address is glue
+        let ns = Record::from_rdata(sub.clone(), 3600, RData::NS(NS(sub.clone())));
+        inner.upsert(ns, 1, DNSClass::IN);
+        let glue = Record::from_rdata(sub.clone(), 3600, RData::A(A::new(192, 0, 2, 1)));
+        inner.upsert(glue, 1, DNSClass::IN);
+
+        let key =
+            Ed25519SigningKey::from_pkcs8(&Ed25519SigningKey::generate_pkcs8().unwrap()).unwrap();
+        inner.secure_keys.push(DnssecSigner::new(
+            DNSKEY::from_key(&key.to_public_key().unwrap()),
+            Box::new(key),
+            origin.clone(),
+            Duration::from_secs(86400),
+        ));
+        inner.nsec_zone(&origin.into(), DNSClass::IN);
+
+        let rrset = &inner.records[&RrKey::new(sub.into(), RecordType::NSEC)];
+        let RData::DNSSEC(DNSSECRData::NSEC(nsec)) =
+            &rrset.records_without_rrsigs().next().unwrap().data
+        else {
+            panic!("expected NSEC record: {rrset:#?}");
+        };
+        assert_eq!(
+            nsec.type_set().iter().collect::<Vec<_>>(),
+            [RecordType::NS, RecordType::RRSIG, RecordType::NSEC]
+        );
     }
 }
